@@ -74,18 +74,61 @@ pub fn check_area(c: u64, n: i32, worst: &Mutex<f64>) -> Vec<Viol> {
     vec![]
 }
 
+
+/// The same area measurement right after another request for the same cell on the same thread (a coarse ring,
+/// a closed ring, the default ring, the centre): what a renderer or an area tool does. Six predecessors x every
+/// cell; the finely subdivided ring that follows must enclose sphere/N within 1e-4 like any other.
+pub fn check_area_after(c: u64, n: i32, only: Option<usize>) -> Vec<Viol> {
+    let r = rc::resolution(c).unwrap();
+    let want = 4.0 * rg::PI / rc::num_cells(r) as f64;
+    const PRED: [&str; 6] = ["cell_to_boundary(segments 1, open)", "cell_to_boundary(segments 1, closed)", "cell_to_boundary(segments 2, open)", "cell_to_boundary(default)", "cell_to_lonlat", "cell_to_boundary(same segments, closed)"];
+    for k in 0..6usize {
+        if only.map(|o| o != k).unwrap_or(false) {
+            continue;
+        }
+        match k {
+            0 => drop(subj::boundary(c, false, Some(1))),
+            1 => drop(subj::boundary(c, true, Some(1))),
+            2 => drop(subj::boundary(c, false, Some(2))),
+            3 => drop(subj::boundary_default(c)),
+            4 => drop(subj::centre(c)),
+            _ => drop(subj::boundary(c, true, Some(n))),
+        }
+        let ring = match geo::ring_vectors(c, n) {
+            Ok(x) => x,
+            Err(e) => return vec![viol("C04/boundary-error", e, idcase(c))],
+        };
+        let rel = (rg::poly_area(&ring).abs() / want - 1.0).abs();
+        if !(rel <= 1e-4) {
+            return vec![viol(
+                "C04/cell-area-after-request",
+                format!("cell {} (r={}): the boundary with {} segments per edge requested right after {} for the same cell has {} points and encloses sphere/N with relative error {:.3e}", subj::hex(c), r, n, PRED[k], ring.len(), rel),
+                json!({"kind": "area_after", "id": subj::hex(c), "pred": k, "n": n}),
+            )];
+        }
+    }
+    vec![]
+}
+
 pub fn run_c04(tier: &str) -> Report {
     let mut rep = Report::new("exploration");
     let rmax = if tier == "quick" { 6 } else { 8 };
     let worst = Mutex::new(0.0f64);
     let mut evals = 0u64;
     let mut area_sums = Vec::new();
+    let mut after_cells = 0u64;
     for r in 0..=rmax {
         let cells = rc::all_cells(r);
         let n = if r <= 2 { 64 } else { 32 };
         let vs: Vec<Viol> = cells.par_iter().flat_map(|&c| check_area(c, n, &worst)).collect();
         rep.sink.extend(vs);
         evals += cells.len() as u64;
+        if r <= if tier == "quick" { 4 } else { 6 } {
+            let vs: Vec<Viol> = cells.par_iter().flat_map(|&c| check_area_after(c, n, None)).collect();
+            rep.sink.extend(vs);
+            evals += 6 * cells.len() as u64;
+            after_cells += cells.len() as u64;
+        }
         // measure: all cell areas of a resolution sum to the sphere
         let total: f64 = cells.par_iter().map(|&c| geo::ring_vectors(c, n).map(|ring| rg::poly_area(&ring)).unwrap_or(0.0)).sum();
         let rel = (total / (4.0 * rg::PI) - 1.0).abs();
@@ -193,6 +236,7 @@ pub fn run_c04(tier: &str) -> Report {
     rep.set("exhaustive_scope", json!(format!("all cells with resolution <= {}", rmax)));
     rep.set("worst_relative_error", json!(*worst.lock().unwrap()));
     rep.set("area_sums", json!(area_sums));
+    rep.set("cells_measured_again_after_each_of_6_other_requests", json!(after_cells));
     rep.sample(json!({"cell": subj::hex(deep[deep.len() / 2])}));
     rep.assume("resolutions above the exhaustive bound are covered on families and pole/antimeridian cells only");
     rep.assume("area measured with great-circle segments between boundary points; calibrated discretisation error < 2e-5 at n=32");
@@ -641,6 +685,74 @@ pub fn check_parent(p: u64, stats: &Mutex<[f64; 3]>) -> Vec<Viol> {
     out
 }
 
+
+/// Column-major order. The ordinary pass asks for a parent and then its children, so consecutive requests stay
+/// on one face. Here the parents' centres come from one thread (face by face) and the children's centres from
+/// another in column-major order: for a fixed curve position and child index, the corresponding child of every
+/// (segment, face) in turn (segment-major and face-major), so that consecutive requests differ in the face or in
+/// the segment only. The reach bound must hold all the same.
+pub fn column_major(r: i32) -> (u64, Vec<Viol>) {
+    let ns = 1u64 << (2 * (r - 1).max(0));
+    let svals: Vec<u64> = if ns <= 64 { (0..ns).collect() } else { (0..64).map(|k| k * (ns / 64) + (k % 3)).collect() };
+    let reach = 0.8 * (4.0 * rg::PI / rc::num_cells(r) as f64).sqrt();
+    let mut out = Vec::new();
+    let mut n = 0u64;
+    for &s in &svals {
+        let parent = |face: u64, q: u64| rc::encode(rc::Tuple { face, quintant: q, s, res: r });
+        let pc: Vec<Option<V3>> = std::thread::scope(|sc| {
+            sc.spawn(|| (0..12u64).flat_map(|f| (0..5u64).map(move |q| (f, q))).map(|(f, q)| parent(f, q).and_then(|p| subj::centre(p).ok()).map(|(lo, la)| rg::ll_to_vec(lo, la))).collect())
+                .join()
+                .unwrap_or_default()
+        });
+        if pc.len() != 60 {
+            continue;
+        }
+        for order in 0..2 {
+            let bad = std::thread::scope(|sc| {
+                let pc = &pc;
+                sc.spawn(move || {
+                    let mut cnt = 0u64;
+                    for j in 0..4usize {
+                        for a in 0..(if order == 0 { 5u64 } else { 12 }) {
+                            for b in 0..(if order == 0 { 12u64 } else { 5 }) {
+                                let (f, q) = if order == 0 { (b, a) } else { (a, b) };
+                                let p = match parent(f, q) {
+                                    Some(p) => p,
+                                    None => continue,
+                                };
+                                let kids = rc::children(p);
+                                if j >= kids.len() {
+                                    continue;
+                                }
+                                cnt += 1;
+                                if let (Ok((lo, la)), Some(pcv)) = (subj::centre(kids[j]), pc[(f * 5 + q) as usize]) {
+                                    let d = rg::ang(rg::ll_to_vec(lo, la), pcv);
+                                    if !(d <= reach) {
+                                        return (cnt, Some(viol(
+                                            "C12/centre-reach-column-major",
+                                            format!("child {} of {}: its centre, requested right after the corresponding child on another {}, is {:.4} sqrt(parent area) from the parent centre (limit 0.8)", subj::hex(kids[j]), subj::hex(p), if order == 0 { "face" } else { "segment" }, d / reach * 0.8),
+                                            json!({"kind": "column_major", "res": r}),
+                                        )));
+                                    }
+                                }
+                            }
+                        }
+                    }
+                    (cnt, None)
+                })
+                .join()
+                .unwrap_or((0, None))
+            });
+            n += bad.0;
+            if let Some(v) = bad.1 {
+                out.push(v);
+                return (n, out);
+            }
+        }
+    }
+    (n, out)
+}
+
 pub fn run_c12(tier: &str) -> Report {
     let mut rep = Report::new("exploration");
     let rmax = if tier == "quick" { 7 } else { 9 };
@@ -652,8 +764,15 @@ pub fn run_c12(tier: &str) -> Report {
     parents.extend(fam.iter().copied());
     let vs: Vec<Viol> = parents.par_iter().flat_map(|&p| check_parent(p, &stats)).collect();
     rep.sink.extend(vs);
+    let cm: Vec<(u64, Vec<Viol>)> = (2..=if tier == "quick" { 5 } else { 8 }).collect::<Vec<i32>>().par_iter().map(|&r| column_major(r)).collect();
+    let mut cm_calls = 0u64;
+    for (k, v) in cm {
+        cm_calls += k;
+        rep.sink.extend(v);
+    }
+    rep.set("children_located_in_column_major_order", json!(cm_calls));
     let s = stats.lock().unwrap();
-    rep.set("evaluations", json!(parents.len() as u64));
+    rep.set("evaluations", json!(parents.len() as u64 + cm_calls));
     rep.set("distinct_nontrivial", json!(parents.len() as u64));
     rep.set("rule", json!(format!("every parent of resolution 0..{} ({} cells) + {} family parents to r=28, with all children: planar convex clipping of child and parent polygons (same face plane), union cover > 1/2, spherical centre distance <= 0.8 sqrt(parent area); distinct_nontrivial = distinct parents", rmax, nall, fam.len())));
     rep.set("exhaustive", json!(true));
@@ -667,6 +786,9 @@ pub fn run_c12(tier: &str) -> Report {
 }
 
 pub fn replay(prop: &str, case: &Value) -> Vec<Viol> {
+    if prop == "C12" && case["kind"] == "column_major" {
+        return column_major(case["res"].as_i64().unwrap_or(3) as i32).1;
+    }
     if prop == "C11" && case["kind"] == "ring_pair" {
         let hx = |k: &str| u64::from_str_radix(case[k].as_str().unwrap(), 16).unwrap();
         let (a, b) = (hx("a"), hx("b"));
@@ -714,6 +836,10 @@ pub fn replay(prop: &str, case: &Value) -> Vec<Viol> {
         .unwrap_or_default();
     }
     let id = case["id"].as_str().or(case["parent"].as_str()).map(|s| u64::from_str_radix(s, 16).unwrap());
+    if let (true, Some(c)) = (prop == "C04" && case["kind"] == "area_after", id) {
+        let (k, n) = (case["pred"].as_u64().unwrap_or(0) as usize, case["n"].as_i64().unwrap_or(32) as i32);
+        return std::thread::spawn(move || check_area_after(c, n, Some(k))).join().unwrap_or_default();
+    }
     match (prop, id) {
         ("C04", Some(c)) => check_area(c, 32, &Mutex::new(0.0)),
         ("C11", Some(c)) => match geo::ring_vectors(c, 64) {
